@@ -386,7 +386,7 @@ func (r *relay) data(id uint32, data []byte, streamEnded bool) error {
 		nextPayload := make([]byte, nextPayloadLength)
 		copy(nextPayload, data)
 		data = data[nextPayloadLength:]
-		f := &queuedDataFrame{id, streamEnded && len(data) == 0, nextPayload}
+		f := &queuedDataFrame{streamID: id, endStream: streamEnded && len(data) == 0, data: nextPayload, relay: r}
 
 		r.flowMu.Lock()
 		w.enqueue(f)
